@@ -413,7 +413,7 @@ class C08(base.Engine):
     pid = 'C08'
     level = 'exploration'
     technique = 'deterministic simulation: seeded edit histories over long-lived process with simulated clock and cache knobs; pristine-process reference oracle per step'
-    budgets = (90, 1500)
+    budgets = (70, 1500)
     assumptions = [
         'a step whose incrementally re-parsed tree differs from a from-scratch parse is skipped (precondition of the statement) and the cache entry reset',
         'a buffer never imports a module that is open and unsaved in another buffer (a fresh process cannot see unsaved text)',
